@@ -42,7 +42,18 @@ def main():
         rc, out = sh("git -C /repo worktree add --detach %s HEAD && cp /repo/matid/ext*.so %s/matid/" % (wt, wt))
         assert rc == 0, out
     sh("git checkout -q --detach %s && git checkout -- . && git clean -fdq -e 'matid/ext*.so'" % meta["repo_head"], cwd=wt)
-    env = dict(os.environ, PYTHONPATH=wt, PYTHONHASHSEED="0")
+    env = dict(os.environ, PYTHONPATH=wt, PYTHONHASHSEED="0", VERIF_REPO=wt)
+    with open(patch) as f:
+        cxx = "matid/ext/" in f.read()
+    if cxx:
+        # C++ seeds: the demo rebuilds the extension through the kit the sub-agent was given (/tmp/cxxkit = a copy of
+        # cxx/ + harness/lib/extshim.py); here it is pointed at /verif's own copy
+        with open(demo) as f:
+            dtxt = f.read().replace("/tmp/cxxkit/harness", os.path.join(VERIF, "harness"))
+        demo = os.path.join(sdir, "demo%s.verif.py" % k)
+        with open(demo, "w") as f:
+            f.write(dtxt)
+        meta["cxx"] = True
     rc0, out0 = sh("/venv/bin/python %s" % demo, cwd=wt, env=env, timeout=1800)
     meta["demo_unchanged_rc"] = rc0
     meta["ran"].append("demo on unchanged worktree -> rc %d" % rc0)
@@ -53,7 +64,10 @@ def main():
     else:
         if not skip_tests:
             t0 = time.time()
-            rct, outt = sh("/venv/bin/python -m pytest -q -p no:cacheprovider --timeout=900 -W ignore tests", cwd=wt, env=env, timeout=3600)
+            if cxx:   # the suite against the rebuilt C++ sources (98 geometry + clustering tests); the plain suite uses the shipped binary
+                rct, outt = sh("/venv/bin/python %s" % os.path.join(VERIF, "harness", "cxx_tests.py"), cwd=wt, env=env, timeout=3600)
+            else:
+                rct, outt = sh("/venv/bin/python -m pytest -q -p no:cacheprovider --timeout=900 -W ignore tests", cwd=wt, env=env, timeout=3600)
             tail = [l for l in outt.splitlines() if "passed" in l or "failed" in l][-1:] or [outt[-200:]]
             meta["tests_with_patch"] = {"rc": rct, "summary": tail[0], "wall_s": round(time.time() - t0)}
             meta["ran"].append("pytest tests (with patch) -> %s" % tail[0])
